@@ -197,6 +197,9 @@ impl Check for C06 {
         }
         serde_json::to_value(sc).unwrap()
     }
+    fn isolate(&self, _scenario: &Value) -> bool {
+        true
+    }
     fn execute(&self, scenario: &Value) -> Outcome {
         let sc: Scenario = match serde_json::from_value(scenario.clone()) {
             Ok(s) => s,
